@@ -3,14 +3,16 @@
 // keepers of a fresh app.TestApp, evaluates monitors (the property stated
 // directly on the implementation's observable state) and writes the same
 // histories, with the projected observations, as Coq terms for the model run.
-package drivers
+package lib
 
 import (
 	"encoding/json"
+	"flag"
 	"fmt"
 	"math/big"
 	"os"
 	"path/filepath"
+	"runtime"
 	"sort"
 	"strings"
 	"sync"
@@ -105,7 +107,7 @@ type Result struct {
 	Counters           map[string]int `json:"counters"` // op mix, error kinds, proof-relevant case splits
 	QualityGate        []string       `json:"quality_gate_unmet"`
 	Failures           []Failure      `json:"failures"`
-	Shards             []string       `json:"shards"`    // Coq case files written
+	Shards             []string       `json:"shards"`     // Coq case files written
 	HistIndex          []HistRef      `json:"hist_index"` // shard/position -> history id, for mapping mismatches back
 	Extra              map[string]any `json:"extra,omitempty"`
 }
@@ -285,4 +287,47 @@ func ParallelFor(n, w int, f func(i int)) {
 	wg.Wait()
 }
 
-func readFile(p string) ([]byte, error) { return os.ReadFile(p) }
+// Main is the entry point shared by the per-property binaries:
+//
+//	kvh_Cxx -seed S -n N [-len L] -out DIR [-replay FILE] [-tier quick|thorough] [-workers W]
+func Main(prop string) {
+	fs := flag.NewFlagSet("kvh", flag.ExitOnError)
+	seed := fs.Uint64("seed", 1, "PRNG seed")
+	n := fs.Int("n", 10, "number of histories")
+	l := fs.Int("len", 0, "operations per history (0 = driver default)")
+	out := fs.String("out", ".", "output directory")
+	replay := fs.String("replay", "", "replay file")
+	tier := fs.String("tier", "quick", "tier")
+	workers := fs.Int("workers", runtime.NumCPU(), "parallel workers")
+	_ = fs.Parse(os.Args[1:])
+	d, ok := Registry[prop]
+	if !ok {
+		fmt.Fprintf(os.Stderr, "no driver for %s\n", prop)
+		os.Exit(2)
+	}
+	if err := os.MkdirAll(*out, 0o755); err != nil {
+		fmt.Fprintln(os.Stderr, err)
+		os.Exit(2)
+	}
+	res, err := d(Opts{Seed: *seed, N: *n, Len: *l, OutDir: *out, Replay: *replay, Tier: *tier, Workers: *workers})
+	if err != nil {
+		fmt.Fprintln(os.Stderr, "driver error:", err)
+		os.Exit(2)
+	}
+	if err := WriteResult(*out, res); err != nil {
+		fmt.Fprintln(os.Stderr, err)
+		os.Exit(2)
+	}
+	fmt.Printf("kvh %s: histories=%d evaluations=%d failures=%d shards=%d\n", prop, res.Histories, res.Evaluations, len(res.Failures), len(res.Shards))
+}
+
+// WriteShardList writes a Coq case file whose cases are the elements of one list.
+func WriteShardList(dir string, shard int, header string, cases []string, mismatchFn string) (string, error) {
+	name := fmt.Sprintf("cases_%03d.v", shard)
+	var b strings.Builder
+	b.WriteString(header)
+	b.WriteString("\nOpen Scope Z_scope.\n")
+	fmt.Fprintf(&b, "Definition cases := [\n%s\n].\n", strings.Join(cases, ";\n"))
+	fmt.Fprintf(&b, "Definition M := Eval vm_compute in (%s cases).\nPrint M.\n", mismatchFn)
+	return name, os.WriteFile(filepath.Join(dir, name), []byte(b.String()), 0o644)
+}
